@@ -8,8 +8,13 @@ every interleaving, any number of threads / sessions / items):
   * generic Mutex/RWMutex semantics: a lock order excludes lock-only deadlocks; a lockset discipline
     excludes conflicting concurrent accesses.
   * the lock facts regenerated from /repo's source satisfy both disciplines (`decide`).
-  * teardown protocol of internal/backend: Close / RemoveUser return, under named assumptions; two
-    witnesses of what happens without them (one of them is a defect of the current code).
+  * teardown protocol of internal/backend (as repaired by 630a898): Close / RemoveUser return, under
+    the one named assumption that session loops observe Done; the former hang (cancelled Serve context)
+    is kept as a regression run that now completes; what is still left behind when removeState's DB
+    write fails (witness; defect of the current code).
+  * which close the code uses is a regenerated fact: State.Close discards (7b5e762), so its queue's
+    consumer always terminates (`state_close_consumer_exits`); Server.Close still uses plain Close on
+    serveErrCh, for which `queue_close_leak_witness` applies.
 What is NOT decided by theorem (search only, see checklib/props/C19.py): data races on fields that
 no lock guards (a State's snapshot read from a foreign goroutine, finding #13b), liveness that
 depends on the Go scheduler, blocking on channels / WaitGroups while holding a lock other than in
@@ -19,6 +24,7 @@ import GluonModel.Lemmas.ConcQueue
 import GluonModel.Lemmas.ConcLocks
 import GluonModel.Lemmas.ConcTeardown
 import GluonModel.Generated.Facts.Locks
+import GluonModel.Generated.Facts.CloseVariant
 
 namespace Gluon.C19
 open Gluon.Conc
@@ -113,6 +119,53 @@ theorem queue_close_leak_witness :
   refine ⟨fun steps h => queue_close_blocks_without_reader leakState steps (by decide) (by decide)
     (by decide) (by decide) h, by decide⟩
 
+/-- What `State.Close` relies on, at full strength. Regenerated fact: `State.Close` (through
+`closeUpdateQueue`) calls exactly `updatesQueue.CloseAndDiscardQueued()`. Theorem: in every
+interleaving in which a `CloseAndDiscardQueued` call has completed — its three actions `close(stopCh)`,
+`closed.store(true)`, Broadcast occur in this order, with anything whatsoever before, between and
+after them (more Enqueue, other Close calls, consumer and reader steps or none) — the consumer
+goroutine of the queue terminates by at most two steps of its own: no reader, no bound on what is
+pending. So closing a state never leaves its update-queue goroutine behind (finding #13a, repaired
+by 7b5e762). -/
+theorem state_close_consumer_exits :
+    Facts.stateCloseDiscards = some true ∧
+    ∀ {α : Type} (cap : Nat) (before mid1 mid2 after : List (QStep α)),
+      let s := (QState.init cap : QState α).run
+        (before ++ [.stop] ++ mid1 ++ [.closeStore] ++ mid2 ++ [.closeBcast] ++ after)
+      ∃ own : List (QStep α), own.length ≤ 2 ∧ (∀ st ∈ own, st.isConsumer = true) ∧
+        (s.run own).consumer = .exited := by
+  refine ⟨by decide, ?_⟩
+  intro α cap before mid1 mid2 after s
+  -- state right before the Broadcast of this call
+  let s1 := (QState.init cap : QState α).run (before ++ [.stop] ++ mid1 ++ [.closeStore] ++ mid2)
+  have hs : s = ((s1.step .closeBcast).run after) := by
+    simp only [s, s1, QState.run, List.foldl_append, List.foldl_cons, List.foldl_nil]
+  have inv1 : QInv s1 := qinv_run _ _ (qinv_init (α := α) cap)
+  have hst1 : s1.stopped = true := by
+    have : s1 = (((QState.init cap : QState α).run before).step .stop).run (mid1 ++ [.closeStore] ++ mid2) := by
+      simp only [s1, QState.run, List.foldl_append, List.foldl_cons, List.foldl_nil]
+    rw [this]
+    apply run_stopped
+    simp only [QState.step]; split <;> simp_all
+  have hcl1 : s1.closed = true := by
+    have : s1 = (((QState.init cap : QState α).run (before ++ [.stop] ++ mid1)).step .closeStore).run mid2 := by
+      simp only [s1, QState.run, List.foldl_append, List.foldl_cons, List.foldl_nil]
+    rw [this]
+    apply run_closed
+    simp [QState.step]
+  have hawake : (s1.step .closeBcast).consumer ≠ .sleeping := bcast_awake s1 inv1 hcl1
+  rw [hs]
+  exact cdq_exit' _ (run_stopped _ _ (step_stopped _ _ hst1)) (run_closed _ _ (step_closed _ _ hcl1))
+    (awake_run _ _ (step_closed _ _ hcl1) hawake)
+
+/-- Regenerated fact about the other user of the queue: which close `Server.Close` calls on
+`serveErrCh` is classified (exactly one call, `Close` or `CloseAndDiscardQueued`). Today it is plain
+`Close` (`Facts.serverErrChDiscards = some false`): `queue_close_blocks_without_reader` then applies
+to the `server-err-ch` queue (buffer 1) — two or more session errors that nobody reads from
+`GetErrorCh` pin its consumer goroutine beyond `Server.Close` (label `c19teardown #13a-errch`). With
+`CloseAndDiscardQueued` (`some true`) the theorem of `state_close_consumer_exits` applies instead. -/
+theorem server_errch_close_classified : Facts.serverErrChDiscards.isSome = true := by decide
+
 /-! ## locks -/
 
 /-- Generic lock semantics (Mutex and RWMutex, any number of threads, non-reentrant, writers may
@@ -197,96 +250,82 @@ theorem facts_lockorder_no_deadlock (g : Guard) (s : LSys)
 
 /-! ## teardown protocol -/
 
-/-- Every run of the protocol keeps the WaitGroup accounting (`statesWG` = sessions that still owe a
-`Done` + removeState calls that returned early) and never touches the database or the store after
-`user.close` closed them — for any number of sessions, any interleaving of logins, logouts,
-disconnects, failures and `RemoveUser`/`Close`. -/
-theorem teardown_safe (n : Nat) (observes readFails connCloseFails : Bool) (steps : List TStep) :
-    let s := (TState.init n observes readFails connCloseFails).run steps
-    s.useAfterClose = false ∧ s.wg = s.sess.countP TState.owes + s.leaked := by
+/-- Every run of the protocol keeps the WaitGroup accounting (`statesWG` = number of sessions that
+still owe a `Done`: after 630a898 no path of `removeState` past the map lookup skips it), never
+touches the database or the store after `user.close` closed them, and leaves a state unclosed only
+if the DB write of `removeState` failed (named `hWriteOk`) — for any number of sessions, any
+interleaving of logins, logouts, disconnects, failures and `RemoveUser`/`Close`. -/
+theorem teardown_safe (n : Nat) (observes readFails writeFails connCloseFails : Bool) (steps : List TStep) :
+    let s := (TState.init n observes readFails writeFails connCloseFails).run steps
+    s.useAfterClose = false ∧ s.wg = s.sess.countP TState.owes ∧
+    (writeFails = false → s.unclosedStates = 0) := by
   intro s
-  have h := tinv_run _ steps (tinv_init n observes readFails connCloseFails)
-  exact ⟨h.noUse, h.wgEq⟩
+  have h := tinv_run _ steps (tinv_init n observes readFails writeFails connCloseFails)
+  refine ⟨h.noUse, h.wgEq, fun hw => h.unclosedOk ?_⟩
+  have cfg : ∀ (st : List TStep) (s0 : TState), (s0.run st).writeFails = s0.writeFails := by
+    intro st
+    induction st with
+    | nil => intro s0; rfl
+    | cons x xs ih =>
+      intro s0
+      have hx : (s0.step x).writeFails = s0.writeFails := by
+        unfold TState.step; split
+        · exact (cfg_apply s0 x).2.2.1
+        · rfl
+      simpa [TState.run] using (ih (s0.step x)).trans hx
+  rw [cfg]; exact hw
 
 /-- `RemoveUser` / `Backend.Close` (hence `Server.Close`) return: from every reachable state in which
 the closer holds `usersLock`, every maximal run reaches `returned` after finitely many steps and is
-never stuck before, whatever the sessions do meanwhile (log out, disconnect, stay). Named
-assumptions: `hObservesDone` — each session loop takes `case <-state.Done()` once it is closed;
-`hReadOk` — the database read at the top of `removeState` does not fail. (If
-`updateInjector.Close`/`connector.Close` fail the closer returns the error: that is covered.) -/
-theorem teardown_completes (n : Nat) (connCloseFails : Bool) (steps : List TStep) :
+never stuck before, whatever the sessions do meanwhile (log out, disconnect, stay) and whichever of
+the DB read / DB write of `removeState` or `connector.Close` fail. One named assumption:
+`hObservesDone` — each session loop takes `case <-state.Done()` once it is closed. -/
+theorem teardown_completes (n : Nat) (readFails writeFails connCloseFails : Bool) (steps : List TStep) :
     let hObservesDone := true
-    let hReadOk := false   -- readFails
-    let s := (TState.init n hObservesDone hReadOk connCloseFails).run steps
+    let s := (TState.init n hObservesDone readFails writeFails connCloseFails).run steps
     closing s.closer = true → Completes s := by
-  intro hO hR s hc
-  have h := tinv_run _ steps (tinv_init n hO hR connCloseFails)
-  have cfg : ∀ (st : List TStep) (s0 : TState), (s0.run st).observes = s0.observes ∧
-      (s0.run st).readFails = s0.readFails ∧ (s0.readFails = false → (s0.run st).leaked = s0.leaked) := by
+  intro hO s hc
+  have h := tinv_run _ steps (tinv_init n hO readFails writeFails connCloseFails)
+  have cfg : ∀ (st : List TStep) (s0 : TState), (s0.run st).observes = s0.observes := by
     intro st
     induction st with
-    | nil => intro s0; exact ⟨rfl, rfl, fun _ => rfl⟩
+    | nil => intro s0; rfl
     | cons x xs ih =>
       intro s0
-      have hx : (s0.step x).observes = s0.observes ∧ (s0.step x).readFails = s0.readFails ∧
-          (s0.readFails = false → (s0.step x).leaked = s0.leaked) := by
+      have hx : (s0.step x).observes = s0.observes := by
         unfold TState.step; split
-        · next hen =>
-          obtain ⟨a, b, _⟩ := cfg_apply s0 x
-          exact ⟨a, b, fun hr => leaked_apply s0 x hen hr⟩
-        · exact ⟨rfl, rfl, fun _ => rfl⟩
-      obtain ⟨a, b, c⟩ := ih (s0.step x)
-      refine ⟨by simpa [TState.run] using a.trans hx.1, by simpa [TState.run] using b.trans hx.2.1, ?_⟩
-      intro hr
-      have := c (hx.2.1.trans hr)
-      simpa [TState.run] using this.trans (hx.2.2 hr)
-  obtain ⟨ho, hr, hl⟩ := cfg steps (TState.init n hO hR connCloseFails)
-  exact completes_of_measure _ s (Nat.le_refl _) h (Or.inl hc) (by rw [hl rfl]; rfl)
-    (by rw [ho]; rfl) (by rw [hr]; rfl)
+        · exact (cfg_apply s0 x).1
+        · rfl
+      simpa [TState.run] using (ih (s0.step x)).trans hx
+  exact completes_of_measure _ s (Nat.le_refl _) h (Or.inl hc) (by rw [cfg]; rfl)
 
-/-- one logged-in session; the context passed to `Server.Serve` is cancelled, the session ends, the
-database read at the top of `removeState` fails with `context canceled`; then `Close` -/
-def ctxCancelHang : TState :=
-  (TState.init 1 true true false).run
+/-- REGRESSION for the repaired hang (630a898): one logged-in session, the context passed to
+`Server.Serve` is cancelled, the session ends, the DB read at the top of `removeState` fails (and the
+DB write after it as well); then `Close` up to `statesWG.Wait()` -/
+def ctxCancelRun : TState :=
+  (TState.init 1 true true true false).run
     [.login 0, .leave 0, .readFail 0, .beginClose, .closeQuit, .updaterExit, .updaterWaited, .connOk, .signalAll]
 
-/-- DEFECT (new, reproduced on the real server): without `hReadOk` the theorem is false. After the
-early return of `removeState` nobody calls `statesWG.Done()`: `user.close` waits in
-`statesWG.Wait()` with `usersLock` held, no step of anybody is enabled any more, and no continuation
-ever returns — `Server.Close` and `RemoveUser` hang for ever. -/
-theorem teardown_ctxcancel_hang_witness :
-    ctxCancelHang.closer = .waitStates ∧ ctxCancelHang.wg = 1 ∧ ctxCancelHang.usersLock = true ∧
-    (∀ st, ctxCancelHang.enabled st = false) ∧
-    (∀ steps, (ctxCancelHang.run steps).closer = .waitStates) ∧
-    ¬ Completes ctxCancelHang := by
-  have hstuck : ∀ st, ctxCancelHang.enabled st = false := by
-    have hs : ∀ i, ctxCancelHang.sessAt i = .gone := by
-      intro i
-      have : ctxCancelHang.sess = [.gone] := by decide
-      unfold TState.sessAt; rw [this]
-      cases i <;> rfl
-    have h1 : ctxCancelHang.closer = .waitStates := by decide
-    have h2 : ctxCancelHang.wg = 1 := by decide
-    have h3 : ctxCancelHang.updaterRunning = false := by decide
-    intro st
-    cases st <;> simp [TState.enabled, hs, h1, h2, h3]
-  have hrun : ∀ steps, ctxCancelHang.run steps = ctxCancelHang := by
-    intro steps
-    induction steps with
-    | nil => rfl
-    | cons x xs ih =>
-      have : ctxCancelHang.step x = ctxCancelHang := by simp [TState.step, hstuck x]
-      simpa [TState.run, this] using ih
-  refine ⟨by decide, by decide, by decide, hstuck, fun steps => by rw [hrun steps]; decide, ?_⟩
-  intro hc
-  cases hc with
-  | done h => have : ctxCancelHang.closer = .waitStates := by decide
-              rw [this] at h; cases h
-  | step h _ => obtain ⟨st, _, hen⟩ := h; rw [hstuck st] at hen; cases hen
+/-- The run that used to hang now completes: the failed read no longer skips `statesWG.Done()`;
+`Close` returns (concretely: `lockDelete`, failing write, then the closer's remaining steps). -/
+theorem teardown_ctxcancel_now_completes :
+    ctxCancelRun.closer = .waitStates ∧ Completes ctxCancelRun ∧
+    (ctxCancelRun.run [.lockDelete 0, .finishFail 0, .waitDone, .storeClosed, .dbClosed]).closer = .returned true := by
+  refine ⟨by decide, ?_, by decide⟩
+  exact teardown_completes 1 true true false _ (by decide)
+
+/-- DEFECT that is left (label `c19teardown #13d`, reproduced on the real server): in that same run
+the DB write of `removeState` fails too (`context canceled`), `removeState` returns the error after
+its deferred `statesWG.Done()` but before `state.Close()`: `Close` returns, and the state's update
+queue was never closed — its consumer goroutine sleeps in `pop()` for ever. Without `hWriteOk`
+"once closed it leaves no goroutine behind" is false. -/
+theorem teardown_writefail_unclosed_state_witness :
+    let s := ctxCancelRun.run [.lockDelete 0, .finishFail 0, .waitDone, .storeClosed, .dbClosed]
+    s.closer = .returned true ∧ s.wg = 0 ∧ s.unclosedStates = 1 := by decide
 
 /-- one logged-in session that never looks at `Done` (and does not leave by itself); then `Close` -/
 def noObserve : TState :=
-  (TState.init 1 false false false).run
+  (TState.init 1 false false false false).run
     [.login 0, .beginClose, .closeQuit, .updaterExit, .updaterWaited, .connOk, .signalAll]
 
 /-- The assumption `hObservesDone` is needed: a session whose loop does not observe `Done` (stuck in
@@ -365,7 +404,7 @@ example : Facts.lockTab.fns.length > 100 ∧
 /-- a teardown with three sessions in different phases completes (hypotheses of
 `teardown_completes` are satisfiable by a non-trivial state) -/
 example :
-    let s := (TState.init 3 true false false).run [.login 0, .login 1, .leave 1, .beginClose, .closeQuit]
+    let s := (TState.init 3 true true true false).run [.login 0, .login 1, .leave 1, .beginClose, .closeQuit]
     closing s.closer = true ∧ s.wg = 2 ∧ s.sess = [.running, .relRead, .preauth] := by decide
 
 end Gluon.C19
